@@ -82,7 +82,10 @@ def judge(case, out, app, probe):
         v.append(("request-loop-did-not-return", "client %s, but the loop was still running at the watchdog" % case["mode"]))
     elif not out["server_sock_closed"]:
         v.append(("server-end-not-closed", "request loop returned but the connection's socket is still open"))
-    if case["mode"] in ("halfclose", "hold") and not out["hung"]:
+    if case["mode"] == "trickle" and not out["eof"] and not out["hung"]:
+        v.append(("rejected-but-connection-left-open/client-keeps-sending", "complete rejected head; the client stayed connected "
+                  "and sent a byte every 0.25 s for 3 s: the server never closed (%s)" % out["client_err"]))
+    if case["mode"] in ("halfclose", "hold", "trickle") and not out["hung"]:
         data = out["received"]
         if case["mode"] == "hold" and not out["eof"]:
             v.append(("rejected-but-connection-left-open", "complete rejected head, client kept its side open: the server "
@@ -128,7 +131,7 @@ def run_case(run, e2, harnesses, case):
     stream = bytes.fromhex(case["stream"])
     mode = case["mode"]
     peer = {"unix": "", "unixb": b"", "tcp6": ("::1", 50001, 0, 0)}.get(case.get("peer"), ("127.0.0.1", 50000))
-    out = h.connection(stream, app, mode="hold" if mode == "hold" else mode, partial_read=case.get("partial_read", 0),
+    out = h.connection(stream, app, mode=mode, partial_read=case.get("partial_read", 0),
                        timeout=3.0, peer=peer)
     papp = App()
     probe = h.connection(CANON, papp, timeout=3.0, peer=peer)
@@ -210,13 +213,15 @@ def shard(sh):
                 msgs = ref_http.walk(s, "drop")
                 complete_reject = bool(msgs) and msgs[-1].status == "reject"
                 mode = rng.choice(["halfclose", "halfclose", "close", "close_pending"] + (["hold"] * 3 if complete_reject else []))
-                if mode == "hold":
+                if mode == "hold" and rng.random() < 0.12:
+                    mode = "trickle"
+                if mode in ("hold", "trickle"):
                     # only when the rejected message's head is complete on the wire: the server needs nothing more
                     m = msgs[-1]
                     if s.find(b"\r\n\r\n", m.start) < 0:
                         mode = "halfclose"
                 kind = rng.choice(e2.KINDS)
-                if mode == "hold" and kind == "gthread" and len(msgs) > 1:
+                if mode in ("hold", "trickle") and kind == "gthread" and len(msgs) > 1:
                     # the threaded worker leaves an already-buffered pipelined request unprocessed until new bytes
                     # arrive or the keep-alive timer fires (2 s): nothing wrong for C05, just slow - half-close instead
                     mode = "halfclose"
@@ -255,7 +260,7 @@ def shard(sh):
 def main(tier, seed):
     run = Run(PROP, tier, seed, "fault_enumeration", RULE)
     run.require("ref_rejected_inputs", "truncated_inputs", "error_replies_seen", "silent_closes_seen", "mode/halfclose",
-                "mode/hold", "mode/close", "mode/close_pending", "liveness_probes", "fd_checks", "peer/unix", "peer/tcp", "peer/tcp6")
+                "mode/hold", "mode/trickle", "mode/close", "mode/close_pending", "liveness_probes", "fd_checks", "peer/unix", "peer/tcp", "peer/tcp6")
     q = tier == "quick"
     shards = [{"kind": "prefix", "sub": i, "of": 22, "seed": seed, "tier": tier} for i in range(22)]
     shards += [{"kind": "hostile", "n": 1200 if q else 20000, "sub": i, "seed": seed, "tier": tier} for i in range(12 if q else 32)]
